@@ -147,6 +147,12 @@ class Trace:
 
     def snapshot(self, s, label):
         """state dump in the driver's format + numeric data"""
+        hb = self.cfg.get('heartbeat')
+        if hb:
+            try:
+                os.utime(hb, None)
+            except OSError:
+                pass
         out = []
         nb = len(s.bounds)
         has_blobs = s.blobs is not None
